@@ -185,6 +185,32 @@ def cdStep (_st : Unit) (line : String) (t : Tally) : Except String (Unit × Tal
     else .ok ((), t)
   | _ => .error "unknown line"
 
+/-! ### conc-mpsc: delivery-log judge (exactly once, per-producer order, no invention, no refusal below capacity) -/
+
+structure CmSt where
+  nextSeq : List (Nat × Nat) := []      -- producer ↦ next sequence number expected from it
+  nofull : Bool := false
+
+def cmStep (st : CmSt) (line : String) (t : Tally) : Except String (CmSt × Tally) :=
+  let ws := splitWs line
+  match ws with
+  | "scenario" :: kind :: _ => .ok ({ nextSeq := [], nofull := kind == "nofull" }, t.bump s!"scenario_{kind}")
+  | ["refused", p, n, _] =>
+    if st.nofull && n != "0" then
+      .error s!"C16: producer {p} had {n} offer(s) refused although all offers together fit the maximum capacity and nothing was consumed"
+    else .ok (st, t)
+  | ["deliver", p, sq] =>
+    let p := p.toNat!; let sq := sq.toNat!
+    let want := ((st.nextSeq.find? (·.1 == p)).map (·.2)).getD 0
+    if sq < want then .error s!"C16: event ({p},{sq}) delivered twice or out of its producer's order (next expected from producer {p} is {want})"
+    else if sq > want then .error s!"C16: event ({p},{want}) lost or overtaken: ({p},{sq}) delivered first"
+    else .ok ({ st with nextSeq := (p, sq + 1) :: st.nextSeq.filter (·.1 != p) }, t.bump "delivered")
+  | ["sent", p, n] =>
+    let got := ((st.nextSeq.find? (·.1 == p.toNat!)).map (·.2)).getD 0
+    if got != n.toNat! then .error s!"C16: producer {p} had {n} events accepted but {got} were delivered" else .ok (st, t)
+  | ["end"] => .ok (st, t)
+  | _ => .error "unknown line"
+
 /-- generic script loop: `step` per line, first failure of a script is reported, rest of the script skipped -/
 partial def loop {σ : Type} (h : IO.FS.Stream) (init : σ) (step : σ → String → Tally → Except String (σ × Tally))
     (st : σ) (script : String) (lineNo : Nat) (skipping : Bool) (t : Tally) : IO Unit := do
@@ -207,6 +233,7 @@ partial def loop {σ : Type} (h : IO.FS.Stream) (init : σ) (step : σ → Strin
 def dispatch (cmd : String) (_args : List String) (h : IO.FS.Stream) : IO UInt32 := do
   match cmd with
   | "sketch" => loop h ({} : SkSt) skStep {} "" 0 false {}; return 0
+  | "concmpsc" => loop h ({} : CmSt) cmStep {} "" 0 false {}; return 0
   | "concdrain" => loop h () cdStep () "" 0 false {}; return 0
   | "mpsc" => loop h ({} : MqSt) mqStep {} "" 0 false {}; return 0
   | "wheel" => loop h ({} : Impl.Wheel.Wheel) whStep {} "" 0 false {}; return 0
